@@ -367,11 +367,20 @@ func (vc *VC) mergeStates(sts []*State) *State {
 			continue
 		}
 		// all must be terms
-		t0, ok := vals[0].(Term)
-		if !ok {
-			out.vars[o] = vals[0] // closures: keep first (unsupported to diverge)
+		allTerms := true
+		for _, v := range vals {
+			if _, ok := v.(Term); !ok {
+				allTerms = false
+			}
+		}
+		if !allTerms {
+			// different function values on different paths: the merged value is
+			// an unknown function (calls through it are havoced)
+			vc.ss.declareFn()
+			out.vars[o] = vc.freshOfSort("fn", SFn, o.Type())
 			continue
 		}
+		t0 := vals[0].(Term)
 		acc := vals[len(vals)-1].(Term)
 		for i := len(vals) - 2; i >= 0; i-- {
 			vi, ok := vals[i].(Term)
